@@ -1,6 +1,6 @@
 (* C04 — paths and accessors address exactly the leaves. *)
-From OptreeModel Require Import Base Tree Flatten Unflatten Spec Accessor.
-From OptreeProofs Require Import TraversalProofs AccessorProofs PathsFree.
+From OptreeModel Require Import Base Tree Flatten Unflatten Spec Accessor PathsArr.
+From OptreeProofs Require Import TraversalProofs AccessorProofs PathsFree UpToPaths PrefixArrProofs PathsArrProofs.
 
 (* For every tree whose custom nodes declare pairwise distinct entries, every configuration: the
    i-th path, applied to the tree entry by entry (sequence index, dict key, namedtuple /
@@ -51,3 +51,28 @@ Example C04_example :
     ps = [[KStr [97]; KInt 0]; [KStr [98]; KStr [120]]; [KStr [98]; KStr [121]; KInt 0]; [KStr [98]; KStr [121]; KInt 1]] /\
     map (get_path o) ps = [Some (Leaf 4); Some (Leaf 1); Some (Leaf 2); Some (Leaf 3)].
 Proof. vm_compute. do 3 eexists. repeat split. Qed.
+
+(* THE C++ WALK ITSELF. PyTreeSpec::Paths as treespec.cpp runs it — the recursive walk over the node
+   array by position from its end with an explicit entry stack, emitting the leaves' paths last leaf
+   first into a vector reversed at the end, the two final consistency checks — returns exactly the
+   tree-level paths of the model (which C04_paths_from_spec ties to flatten_with_path). *)
+Theorem C04_cpp_paths_walk :
+  forall c o ls sp s,
+    wf_obj o = true -> flatten c o = Ok (ls, sp) -> sspec_of sp = Some s ->
+    arr_paths sp = Ok (st_paths (stree_of s)).
+Proof. exact arr_paths_of_flattened. Qed.
+Print Assumptions C04_cpp_paths_walk.
+
+Theorem C04_cpp_paths_walk_general :
+  forall t nl ns,
+    wf_stree t = true -> JoinOrder.good t = true -> entries_wf t = true -> dok t = true ->
+    arr_paths {| trav := encode t; snil := nl; sns := ns |} = Ok (st_paths t).
+Proof. exact arr_paths_spec. Qed.
+Print Assumptions C04_cpp_paths_walk_general.
+
+(* as many paths as leaves, at the level of treespecs *)
+Theorem C04_treespec_paths_count :
+  forall t, wf_stree t = true -> JoinOrder.good t = true -> entries_wf t = true -> dok t = true ->
+  length (st_paths t) = st_leaves t.
+Proof. exact st_paths_count. Qed.
+Print Assumptions C04_treespec_paths_count.
